@@ -45,6 +45,9 @@
 (*                  species name (H2_kwargs reaching H2O),                 *)
 (*        "suffix"  ... or a suffix of it (O_kwargs reaching H2O),         *)
 (*        "actswap" _get_states ignores rev when act is set,               *)
+(*        "snapshot" the coefficients are copied when they are assigned    *)
+(*                  and the getters use the copy: a later in-place edit    *)
+(*                  of a coefficient list is ignored (EditedEqualsFresh),  *)
 (*        "actfallback" act = True on a reaction WITHOUT a transition      *)
 (*                  state silently evaluates the plain reaction change     *)
 (*                  instead of refusing (a subclass override doing         *)
@@ -56,11 +59,16 @@ CONSTANTS Rxns,       \* reactions [r |-> side, p |-> side, t |-> side]; side = 
           KwParts,    \* caller dictionaries as [glob |-> f, blocks |-> g] (see Kw)
           ProbeNames, \* names whose routing is examined in addition to the reaction's species
           ProbeBlocks,\* block contents used by RouteIsolation
-          Variant,    \* "asbuilt" | "alias" | "prefix" | "suffix" | "actswap" | "actfallback"
-          MaxCalls
+          Variant,    \* "asbuilt" | "alias" | "prefix" | "suffix" | "actswap" | "actfallback" | "snapshot"
+          MaxCalls,
+          MaxEdits,   \* in-place edits of the reaction's public attributes between evaluations
+          EditCoefs,  \* coefficients an edit may write
+          EditNames   \* species an edit may put in place of another
 
-VARIABLES rxn, callerKw, last, ncalls, phase
-vars == <<rxn, callerKw, last, ncalls, phase>>
+\* rxn is the PUBLIC state of the reaction object (species and coefficient lists, which the user may edit in
+\* place); snap is what a defective implementation keeps privately at assignment time (variant "snapshot")
+VARIABLES rxn, callerKw, last, ncalls, phase, snap, nedits
+vars == <<rxn, callerKw, last, ncalls, phase, snap, nedits>>
 
 GT == <<"T">>
 GP == <<"P">>
@@ -173,19 +181,47 @@ NoCall == [fn |-> "none", side |-> "-", rev |-> FALSE, act |-> FALSE]
 NoRxn == [r |-> <<>>, p |-> <<>>, t |-> <<>>]
 \* the reaction and the caller's dictionary are chosen by two set-up steps (so that TLC spreads the
 \* work over its workers); after that every step is one public call
-Init == /\ rxn = NoRxn /\ callerKw = EmptyFn /\ phase = "rxn" /\ ncalls = 0
-        /\ last = [call |-> NoCall, kw |-> EmptyFn, res |-> ZeroLin]
-PickRxn == /\ phase = "rxn" /\ rxn' \in Rxns /\ phase' = "kw" /\ UNCHANGED <<callerKw, last, ncalls>>
+Init == /\ rxn = NoRxn /\ snap = NoRxn /\ nedits = 0 /\ callerKw = EmptyFn /\ phase = "rxn" /\ ncalls = 0
+        /\ last = [call |-> NoCall, kw |-> EmptyFn, rx |-> NoRxn, res |-> ZeroLin]
+PickRxn == /\ phase = "rxn" /\ rxn' \in Rxns /\ snap' = rxn' /\ phase' = "kw"
+           /\ UNCHANGED <<callerKw, last, ncalls, nedits>>
 PickKw == /\ phase = "kw" /\ callerKw' \in {Kw(p) : p \in KwParts} /\ phase' = "run"
-          /\ UNCHANGED <<rxn, last, ncalls>>
+          /\ UNCHANGED <<rxn, last, ncalls, snap, nedits>>
+
+\* what the getters read: the public lists, or (defective) the coefficients copied at assignment with the
+\* species of the public lists
+Seen == IF Variant = "snapshot"
+        THEN [s \in {"r", "p", "t"} |->
+                IF Len(SideOf(snap, s)) = Len(SideOf(rxn, s))
+                THEN [i \in 1..Len(SideOf(rxn, s)) |-> [n |-> SideOf(rxn, s)[i].n, c |-> SideOf(snap, s)[i].c]]
+                ELSE SideOf(rxn, s)]
+        ELSE [s \in {"r", "p", "t"} |-> SideOf(rxn, s)]
+SeenRxn == [r |-> Seen["r"], p |-> Seen["p"], t |-> Seen["t"]]
 
 Call(c) == /\ phase = "run" /\ ncalls < MaxCalls
-           /\ last' = [call |-> c, kw |-> callerKw, res |-> ImplResult(rxn, callerKw, c)]
+           /\ last' = [call |-> c, kw |-> callerKw, rx |-> rxn, res |-> ImplResult(SeenRxn, callerKw, c)]
            /\ callerKw' = AfterCall(callerKw)
            /\ ncalls' = ncalls + 1
-           /\ UNCHANGED <<rxn, phase>>
+           /\ UNCHANGED <<rxn, phase, snap, nedits>>
 
-Next == PickRxn \/ PickKw \/ \E c \in Calls(rxn) : Call(c)
+\* ---- the user edits the reaction between evaluations ---------------------------
+WithSide(rx, s, side) == [r |-> IF s = "r" THEN side ELSE rx.r, p |-> IF s = "p" THEN side ELSE rx.p,
+                          t |-> IF s = "t" THEN side ELSE rx.t]
+Edited(nrx, nsnap) == /\ phase = "run" /\ nedits < MaxEdits
+                      /\ rxn' = nrx /\ snap' = nsnap /\ nedits' = nedits + 1
+                      /\ UNCHANGED <<callerKw, last, ncalls, phase>>
+\* rxn.<side>_stoich[i] = c  (also: the caller edits the list it passed in - the same object)
+EditCoef == \E s \in {"r", "p", "t"} : \E i \in 1..Len(SideOf(rxn, s)) : \E c \in EditCoefs :
+               Edited(WithSide(rxn, s, [SideOf(rxn, s) EXCEPT ![i].c = c]), snap)
+\* rxn.reactants[i] = another species
+EditSpecies == \E s \in {"r", "p"} : \E i \in 1..Len(SideOf(rxn, s)) : \E n \in EditNames :
+                  Edited(WithSide(rxn, s, [SideOf(rxn, s) EXCEPT ![i].n = n]), snap)
+\* rxn.<side>_stoich = [..]  through the setter: a defective private copy is refreshed as well
+Reassign == \E s \in {"r", "p", "t"} : \E c \in EditCoefs :
+               LET side == [i \in 1..Len(SideOf(rxn, s)) |-> [n |-> SideOf(rxn, s)[i].n, c |-> c]]
+               IN Edited(WithSide(rxn, s, side), WithSide(snap, s, side))
+
+Next == PickRxn \/ PickKw \/ (\E c \in Calls(rxn) : Call(c)) \/ EditCoef \/ EditSpecies \/ Reassign
 Spec == Init /\ [][Next]_vars
 
 \* ---- the property --------------------------------------------------------
@@ -194,13 +230,16 @@ NamesOf(rx) == {rx.r[i].n : i \in 1..Len(rx.r)} \cup {rx.p[i].n : i \in 1..Len(r
 
 \* the relations below depend on (rxn, callerKw) only: they are evaluated once per pair, before the first call
 Fresh == phase = "run" /\ ncalls = 0
-TypeOK == /\ rxn \in Rxns \cup {NoRxn} /\ ncalls \in 0..MaxCalls /\ phase \in {"rxn", "kw", "run"}
+TypeOK == /\ (nedits = 0 => rxn \in Rxns \cup {NoRxn}) /\ ncalls \in 0..MaxCalls /\ phase \in {"rxn", "kw", "run"}
           /\ \A key \in DOMAIN callerKw : key.k \in {"glob", "block"}
 
 \* the implementation-shaped algorithms compute what is required
 RouteRefines == Fresh => \A n \in NamesOf(rxn) \cup ProbeNames : ImplRoute(callerKw, n) = ReqRoute(callerKw, n)
 StateRefines == Fresh => \A s \in {"r", "p", "t"} : ImplState(SideOf(rxn, s), callerKw) = ReqState(SideOf(rxn, s), callerKw)
-ResultOK == last.call.fn # "none" => last.res = ReqResult(rxn, last.kw, last.call)
+ResultOK == last.call.fn # "none" => last.res = ReqResult(last.rx, last.kw, last.call)
+\* an edited reaction answers like a fresh reaction built from the public attributes it had at the call
+\* (last.rx; histories evaluate, edit, evaluate again)
+EditedEqualsFresh == (last.call.fn # "none" /\ last.rx \notin Rxns) => last.res = ReqResult(last.rx, last.kw, last.call)
 
 Dlt(rev, act) == ImplDelta(rxn, callerKw, rev, act)
 \* reversing the direction flips the sign of the change
@@ -216,7 +255,7 @@ DetailedBalance == Fresh => LAdd(LNeg(Dlt(FALSE, FALSE)), LNeg(Dlt(TRUE, FALSE))
 KeqActRatio == (Fresh /\ Returned(FALSE) /\ Returned(TRUE)) =>
                   LSub(LNeg(DltR(FALSE, TRUE)), LNeg(DltR(TRUE, TRUE))) = LNeg(Dlt(FALSE, FALSE))
 \* no transition state: every getter that needs one refuses
-ActWithoutTSRefused == (last.call.fn # "none" /\ NeedsTS(last.call) /\ ~HasTS(rxn)) => last.res = Refused
+ActWithoutTSRefused == (last.call.fn # "none" /\ NeedsTS(last.call) /\ ~HasTS(last.rx)) => last.res = Refused
 \* a change is the stoichiometry-weighted sum over the final minus the initial side (Hess)
 Hess == Fresh => \A rv \in BOOLEAN, a \in (IF HasTS(rxn) THEN BOOLEAN ELSE {FALSE}) :
            Dlt(rv, a) = ReqDelta(rxn, callerKw, rv, a)
